@@ -822,6 +822,11 @@ class BaseBackend(CodeGen):
         from scipy.integrate import solve_ivp
         kwargs['t_eval'] = times
 
+        # the generated function returns its `dy` buffer: scipy gets a copy, since its Runge-Kutta steppers keep a
+        # reference to the last evaluation and would find it overwritten when they repeat a rejected step
+        def rhs(t, y_):
+            return np.array(func(t, y_, *args))
+
         # call scipy solver
-        results = solve_ivp(fun=func, t_span=(t0, T), y0=y, first_step=dt, args=args, **kwargs)
+        results = solve_ivp(fun=rhs, t_span=(t0, T), y0=y, first_step=dt, **kwargs)
         return results['y'].T
